@@ -6,3 +6,12 @@ Inductive em_kind :=
   | EmOverwrite   (* withUniqueEventOverwrite: of the events with one index only the last survives *)
   | EmMerge       (* withEventMerge f: events with one index are folded into the first one *)
   | EmKeep.       (* no middleware *)
+
+(* shape of the function f handed to withEventMerge, read off its body by the translator *)
+Inductive em_field_kind :=
+  | FScalar       (* a.F += b.F *)
+  | FMap.         (* for k, v := range b.F { a.F[k] += v } (with or without the "not yet present" branch) *)
+
+Inductive em_fn :=
+  | MfAdd (fields : list (string * em_field_kind))  (* the body is exactly: one addition per listed field, then return a, nil *)
+  | MfOther.                                        (* anything else: early returns, conditions, replacement by key ... *)
